@@ -115,7 +115,7 @@ Definition rearm (s : st) : st :=
   | S o =>
     let s1 := set_owed s o in
     match md with
-    | ETOS => if closed s1 then s1 else if reg s1 then kctl s1 (negb (q s1 =? 0)) else s1
+    | ETOS => if closed s1 then s1 else if reg s1 then kctl s1 (0 <? q s1) else s1
     | _ => s1
     end
   end.
@@ -159,10 +159,10 @@ Definition step (s : st) (a : action) : st :=
       if closed s || reg s then s else
       kadd s (match md with ET => true | _ => wadded s end)
   | RegisterDial =>
-      if closed s || reg s then s else
+      if closed s || reg s || negb (q s =? 0) then s else
       kadd (set_dial (set_wadded s true) true) true
   | RegisterDialNow =>
-      if closed s || reg s then s else
+      if closed s || reg s || negb (q s =? 0) then s else
       kadd (set_wadded s true) true
   | PeerRead k =>
       if closed s || (k =? 0) then s else kpeer s k
@@ -172,7 +172,8 @@ Definition step (s : st) (a : action) : st :=
       | WNone =>
           if is_os && negb (armed s) then s else
           let out := deliverable_out s spur in
-          if out || rd then
+          (* a socket whose connect(2) is still pending has nothing to read; once connected it is writable *)
+          if (out || rd) && negb (dial s && negb out) then
             mk (q s) (wadded s) (closed s) (dial s) (room s) (nospace s) (reg s) (mout s)
                (if is_os then false else armed s)
                (if out then false else eout s)
